@@ -7,6 +7,9 @@ import PyModeS.Tie.Common
 import PyModeS.Generated.Src.tcpclient
 import PyModeS.Model.Stream
 
+-- symbolic execution of long generated `do` blocks: generous but finite budget (proof times are seconds)
+set_option maxHeartbeats 1000000
+
 set_option linter.style.nameCheck false
 set_option linter.unusedSimpArgs false
 set_option linter.unusedVariables false
